@@ -1,4 +1,5 @@
 PROP = dict(
+    coq=["Tree/TreeHarness.vo"],
     legs=[
         dict(driver="tree", quick=900, thorough=20000, shard=60,
              monitors=["links_symmetric_ids_unique", "wellformed_at_stage_boundaries", "dedupe_unique",
